@@ -6,7 +6,7 @@ g=$1
 cd /verif || exit 2
 git merge --no-edit $g 2>&1 | tail -3
 # generated files: take ours then regenerate
-for f in MANIFEST.json known_findings.json; do
+for f in MANIFEST.json known_findings.json $(git diff --name-only --diff-filter=U | grep '^evidence/'); do
   if git diff --name-only --diff-filter=U | grep -qx $f; then git checkout --ours $f; git add $f; fi
 done
 if git diff --name-only --diff-filter=U | grep -q .; then echo "UNRESOLVED:"; git diff --name-only --diff-filter=U; exit 1; fi
